@@ -288,3 +288,14 @@ func trunc(s string, n int) string {
 	}
 	return s[:n] + "…"
 }
+
+// CountRule: number of obligations recorded so far under a rule.
+func (r *Report) CountRule(rule string) int {
+	n := 0
+	for _, o := range r.Obls {
+		if o.Rule == rule {
+			n++
+		}
+	}
+	return n
+}
